@@ -366,6 +366,16 @@ def answer (line : String) : String :=
         | x :: r => (Lex.inRanges first x == XSD.inSet sf x) && r.all fun y => Lex.inRanges later y == XSD.inSet sl y
       out m m sp (flags s ++ (if alike then "" else "n"))
     | none => "bad-string"
+  else if op == "dectuple" then
+    -- phase 5: a Decimal given by as_tuple() (sign N, coefficient C, exponent -K): model = string_value text,
+    -- modelN = the text of format(d,'f') the model derives it from, spec = decimalCanon of the number
+    match int? (field fs "C"), int? (field fs "K") with
+    | some c, some k =>
+      let neg := field fs "N" == "1"
+      let d := Lex.pyDecOfTuple neg c.toNat k.toNat
+      let fmt := (if neg then "-" else "") ++ str d.ip ++ (if d.fp.isEmpty then "" else "." ++ str d.fp)
+      out (str (Lex.decCanon d)) fmt (str (XSD.decimalCanon ⟨if neg then -(c.toNat : Int) else c.toNat, k.toNat⟩)) ""
+    | _, _ => "bad-dectuple"
   else if op == "castv" then
     let a := field fs "A"
     let b := field fs "B"
